@@ -1,16 +1,16 @@
 #!/bin/bash
 # usage: harmless.sh <patch.diff> [PROP...]   (default: all twenty)
-# applies a behaviour-preserving refactoring in the scratch worktree /tmp/mw and runs the quick checks of the /verif snapshot
+# applies a behaviour-preserving refactoring in the scratch worktree $MW (default /tmp/mw) and runs the quick checks of the /verif snapshot
 # (/tmp/vsnap) against it: every one of them must stay silent.
 patch="$1"; shift
 props="$@"; [ -n "$props" ] || props="C01 C02 C03 C04 C05 C06 C07 C08 C09 C10 C11 C12 C13 C14 C15 C16 C17 C18 C19 C20"
 export GOFLAGS=-mod=mod GOPROXY=off GOSUMDB=off GOTOOLCHAIN=local
-cd /tmp/mw || exit 2
+wt=${MW:-/tmp/mw}; cd $wt || exit 2
 git checkout -q -f --detach "$(git -C /repo rev-parse HEAD)"; git clean -fdq
 git apply "$patch" || { echo "PATCH DOES NOT APPLY: $patch"; exit 3; }
 go build ./... || { echo "DOES NOT BUILD"; exit 3; }
 suite=$(go test -vet=off -count=1 -timeout 120s ./... 2>&1 | grep -v "^ok\|no test files" | head -3)
 echo "== $patch: suite ${suite:-GREEN}"
-export VERIF_REPO=/tmp/mw VERIF_WORK=/tmp/mwork
-for p in $props; do (cd /tmp/vsnap && timeout 2400 ./check "$p" quick 2>&1 | grep -E "VIOLATION|seed=" | cut -c1-200); done
+export VERIF_REPO=$wt VERIF_WORK=${MWORK:-/tmp/mwork}
+for p in $props; do (cd ${VSNAP:-/tmp/vsnap} && timeout 2400 ./check "$p" quick 2>&1 | grep -E "VIOLATION|seed=" | cut -c1-200); done
 git checkout -q -f -- .; git clean -fdq
